@@ -45,6 +45,12 @@ type badChanList struct {
 	Z int32
 }
 
+type badViews struct {
+	Preview *[]interface{}
+	All     *[]interface{}
+	N       int32
+}
+
 // structs with state the encoder cannot read
 type badHidden struct {
 	A    int32
@@ -116,6 +122,7 @@ var unsupportedKinds = []string{"named uintptr", "named chan", "named func", "na
 	// fails, or (should the library choose a wider form) carries the number - see carriedOrFails
 	"*struct{first field: struct{chan}}", "instance of the 17th class{chan}", "int in [2^31, 2^32)", "[]int{.., in [2^31, 2^32)}", "struct{int in [-2^32, -2^31)}",
 	"anonymous struct{chan}", "*anonymous struct{func}", "[]interface{}{anonymous struct{complex}}",
+	"[]interface{}{*prefix, *whole with a chan in the tail}", "struct{*prefix, *whole with a func in the tail}",
 	"struct{unexported field}", "*struct{sync.Mutex}", "struct{*struct{unexported field}}", "all-zero struct{chan}",
 	"struct{Évent chan}", "struct{Ωmega func; Ärger complex128}", "struct{time.Time; chan}", "*struct{struct{time.Time; chan}}",
 	"int beyond 32 bits", "negative int beyond 32 bits", "[]int{.., beyond 32 bits, ..}", "map[string]int{beyond 32 bits}", "struct{int beyond 32 bits}"}
@@ -220,6 +227,15 @@ func unsupportedValue(kind string) interface{} {
 		}{"s", func() {}}
 	case "[]interface{}{anonymous struct{complex}}":
 		return []interface{}{int32(1), struct{ X complex128 }{complex(1, 2)}}
+	case "[]interface{}{*prefix, *whole with a chan in the tail}":
+		// two lists over one array, both behind pointers: the longer one is another list than its prefix
+		all := []interface{}{int32(1), int32(2), make(chan int)}
+		preview := all[:2]
+		return []interface{}{&preview, &all}
+	case "struct{*prefix, *whole with a func in the tail}":
+		all := []interface{}{int32(1), "two", int32(3), func() {}}
+		preview := all[:1]
+		return &badViews{Preview: &preview, All: &all, N: 3}
 	case "struct{unexported field}":
 		// what sits in an unexported field cannot be read, let alone represented
 		return badHidden{A: 1, hits: 3, B: "b"}
